@@ -1,7 +1,7 @@
 # Sizing and claim for C06 (see props/__init__.py)
 SPEC = {
         "quick": {"rc_cases": 60000, "rc_procs": 4, "enum": True},
-        "thorough": {"rc_cases": 250000, "rc_procs": 8, "enum": True},
+        "thorough": {"rc_cases": 600000, "rc_procs": 8, "enum": True},
         "claim": {
             "category": "exploration",
             "technique": "bounded-exhaustive pairs/triples over boundary alphabets for all four unit types + rapidcheck triples of close strings + huge declared lengths through the static pointer+length forms, against a reference unsigned lexicographic order",
